@@ -4,7 +4,7 @@
    and unicode.Is(Zs) as arbitrary predicates on runes; s ranges over lexer states whose cursor is
    inside its input (js_wf), in particular every state reachable from js_init d. *)
 From Verif Require Import Common.Base Common.Lx Gen.Tables JsLex.Model JsLex.Lemmas JsLex.Next JsLex.Proofs JsLex.Canon
-  JsLex.Comment JsLex.Regexp JsLex.Relex JsLex.RelexNext JsLex.Exchange JsLex.SeqNext.
+  JsLex.Comment JsLex.Regexp JsLex.RegexSound JsLex.Relex JsLex.RelexNext JsLex.Exchange JsLex.Exchange3 JsLex.SeqNext.
 
 (* C01: Next and RegExp never panic (no read outside data ++ [0], templateLevels never sliced empty),
    no loop runs out of fuel, and the cursor stays inside [0, len] — also on the error path. *)
@@ -159,29 +159,51 @@ Theorem regexp_reread :
 Proof. exact regexp_reread_proof. Qed.
 Print Assumptions regexp_reread.
 
-(* C06 token sequences, PARTIAL: proved for the classes punctuators / operators (all 57 spellings),
-   numeric literals (all radixes, separators, BigInt suffix, exponents), string literals (escapes, line
-   continuations), identifiers + keywords + private identifiers (ASCII, Unicode letters, \u escapes,
-   ZWNJ/ZWJ), template literals with nested substitutions to any depth (heads, middles, tails, braces
-   and parentheses inside substitutions: step_state is the specification of the level bookkeeping),
-   multi-line comments, single-line "//" and "<!--" comments (followed by LF or CR), whitespace (incl.
-   non-ASCII spaces) and line terminators (LF, CR, CRLF, U+2028, U+2029).
-   seq_ok false 0 [] ts: every (type, text) of ts is a token of one of these classes (it lexes on its
-   own to exactly that token: relexes; a comment text starts with "/*", "//" or "<!--"; a template
+(* C06 regexp re-read, converse: whatever RegExp() returns as a RegExpToken — in any state inside any
+   input — is "/" body "/" flags with a well-formed body (re_body).  So a literal that is not closed
+   before the end of its line or of the input (a '/' inside a class or after a backslash does not
+   close it) is an ErrorToken (RegExp returns one of the two: jslex_total / regexp_good). *)
+Theorem regexp_sound :
+  forall (idc : Z -> bool) s b s', js_wf s ->
+    regexp idc s = Ok ((RegExpToken, Some b), s') ->
+    exists body flags, b = re_lit body flags /\ re_body false body.
+Proof. exact regexp_sound_proof. Qed.
+Print Assumptions regexp_sound.
+
+(* C06 token sequences: proved for every token class of the property — punctuators / operators (all 57
+   spellings), numeric literals (all radixes, separators, BigInt suffix, exponents), string literals
+   (escapes, line continuations), identifiers + keywords + private identifiers (ASCII, Unicode letters,
+   \u escapes, ZWNJ/ZWJ), template literals with nested substitutions to any depth (heads, middles,
+   tails, braces and parentheses inside substitutions: step_state is the specification of the level
+   bookkeeping), multi-line comments, the single-line comments "//", "<!--" and "-->" ended by LF, CR,
+   U+2028, U+2029 or the end of input, whitespace (incl. non-ASCII spaces), line terminators (LF, CR,
+   CRLF, U+2028, U+2029) and regular expression literals (item IRegex body flags: re_body as in
+   regexp_reread, with '/' in classes and escaped; the caller calls Next, which returns '/' or — when
+   the body starts with '=' — '/=', and then RegExp, which returns the literal).
+   seq_ok false true 0 [] its (no numeric literal before, at the start of a line, brace level 0, no
+   open template): every ITok ty T of its is a token of one of these classes (it lexes on its own to
+   exactly that token: relexes; a comment text starts with "/*", "//", "<!--", or with "-->" where
+   only whitespace and multi-line comments containing a line terminator separate it from the last line
+   terminator or the start of input: plt_after is the specification of prevLineTerminator; a template
    continuation "}body${" / "}body`" is one whose head "`body${" / "`body`" is a TemplateStart /
    Template token and that arrives where a template is waiting at the current brace level), contains
-   no truncated multi-byte sequence, is followed — by the next token's first byte, or by the end of
-   input — by a byte that cannot extend it (stop_for: "separated wherever two adjacent tokens would
-   otherwise merge", in a sufficient form; closed tokens accept any follower), and no identifier
-   directly follows a numeric literal.  Then Next returns exactly these types and texts, in order,
-   and ends at the end of input.
-   MISSING (covered by correspondence and the Go oracle only): "-->" comments, single-line comments
-   ended by U+2028/U+2029 or the end of input, regular expressions inside sequences (see
-   regexp_reread); followers that are safe but not in stop_for (e.g. '+' directly followed by '!'). *)
+   no truncated multi-byte sequence, is followed by something that cannot extend it (stop_for:
+   "separated wherever two adjacent tokens would otherwise merge", in a sufficient form; closed tokens
+   accept any follower, '/' may directly follow any punctuator but '/', single-line comments run to a
+   line terminator or the end of input), and no identifier directly follows a numeric literal.  Then
+   the calls ops_of its return exactly the tokens toks_of its, in order, and end at the end of input.
+   PARTIAL, MISSING: followers that are safe but not in stop_for — an operator character directly after
+   a punctuator with which it forms no longer punctuator (e.g. "=-", "+!"), a non-ASCII rune (lead byte
+   >= 0xC0) directly after an identifier, whitespace or regular expression flags (e.g. U+00A0 after an
+   identifier) — and non-ASCII flag characters of a regular expression.
+   DEVIATION from ECMA-262 B.1.1 (finding c06-htmlclose:after-comment): the grammar also makes "-->"
+   a comment when a line terminator, optional whitespace and then multi-line-style comments that contain
+   no line terminator (with optional whitespace) precede it; the lexer (and therefore text_ok /
+   plt_after) does not: prevLineTerminator is cleared by such a comment, and "-->" is then the two
+   punctuators "--" ">". *)
 Theorem jslex_token_sequences_partial :
-  forall (ids idc zs : Z -> bool) (ts : list tokspec), seq_ok ids idc zs false 0 [] ts ->
-    exists s', next_n ids idc zs (length ts) (js_init (texts ts)) =
-                 Ok (map (fun t => (fst t, Some (snd t))) ts, s') /\
+  forall (ids idc zs : Z -> bool) (its : list item), seq_ok ids idc zs false true 0 [] its ->
+    exists s', jrun ids idc zs (ops_of its) (js_init (texts its)) = Ok (toks_of its, s') /\
       at_end (jcur s') = true /\ lstart (jcur s') = lpos (jcur s').
 Proof. exact jslex_token_sequences_partial_proof. Qed.
 Print Assumptions jslex_token_sequences_partial.
